@@ -3,8 +3,14 @@
   What the proof carries: every array access of the container models is bounds-checked and every
   cmb_assert_release is a fault, so "returns .ok" = "no out-of-bounds access, no library abort".
   Property theorems only.
+
+  Process layer (Sim/Model.lean, Sim/Run.lean): every `cmb_assert_release` / abort path and every container access
+  out of bounds is a recorded fault (`World.fail`).  `model_never_faults`: no state of any run of any world the
+  scenario loader can build (with a valid program, fewer than 2³¹ processes) has a fault, as long as every priority
+  queue has issued fewer than 2³¹ − 1 handles (the growth limit of the hashheap).  Helper lemmas: Sim/S4*.lean.
 -/
 import CimbaModel.Props.C02
+import CimbaModel.Sim.S4All
 
 namespace CimbaModel.Props.C10
 open CimbaModel CimbaModel.HashHeap CimbaModel.KPQ
@@ -39,5 +45,260 @@ theorem library_queues_never_fault (e : Nat) (h1 : 1 ≤ e) (h2 : e ≤ 31) (ops
     exact ⟨s0, h0, fun hp => let ⟨s', hs, _⟩ := h hp; ⟨s', hs⟩⟩
   · obtain ⟨s0, h0, h⟩ := hashheap_never_faults (lt := CimbaModel.Generated.compare_func) e h1 h2 ops
     exact ⟨s0, h0, fun hp => let ⟨s', hs, _⟩ := h hp; ⟨s', hs⟩⟩
+
+
+/-! ## the process layer -/
+
+section ProcessLayer
+open CimbaModel.Sim CimbaModel.Sim.S3 CimbaModel.Sim.S4 CimbaModel.Event CimbaModel.Generated
+
+/-- no library abort, failed release assert or out-of-bounds container access has happened -/
+def NoFault (w : World) : Prop := w.fault = none
+
+/-! ### the headline theorems
+
+`Loaded w0` (Sim/S4Init.lean): the construction steps of the scenario loader (Drivers/SimMain.lean) — objects on fresh
+guards, processes whose commands are valid calls `CmdValid` (signal values ≠ SUCCESS where the API requires it,
+durations ≥ 0, the variable discipline of the scenario language, `acquire` of a declared resource), subscriptions of a
+condition's guard to a plain guard, at most one start event per process.  `PqRoom w`: every priority queue has issued
+fewer than 2³¹ − 1 handles so far (a library limit: `cmi_hashheap` refuses to grow beyond 2³¹ entries, and handles are
+64-bit); it is monotone along a run, so it is stated for the state of interest only. -/
+
+/-- **valid programs never fault**: every state reachable by dispatching events from a loaded world is fault-free -/
+theorem model_never_faults {w0 w : World} (hl : Loaded w0) (hsz : w0.procs.size < 2 ^ 31) (hr : Reach w0 w)
+    (hroom : PqRoom w) : NoFault w := loaded_never_faults hl hsz hr hroom
+
+/-- the same for the run loop of the drivers -/
+theorem model_never_faults_run {w0 : World} (hl : Loaded w0) (hsz : w0.procs.size < 2 ^ 31) (fuel : Nat)
+    (hroom : PqRoom (Sim.runAll fuel w0)) : NoFault (Sim.runAll fuel w0) := loaded_runAll_never_faults hl hsz fuel hroom
+
+/-- without priority queues there is no resource bound at all -/
+theorem model_never_faults_without_pq {w0 w : World} (hl : Loaded w0) (hsz : w0.procs.size < 2 ^ 31) (h0 : w0.pqs = #[])
+    (hr : Reach w0 w) : NoFault w := loaded_never_faults hl hsz hr (pqRoom_of_no_pq h0 hr)
+
+/-- the bound only has to be checked at the end: the number of handles issued never decreases -/
+theorem pq_room_monotone {w0 w : World} (hr : Reach w0 w) (hroom : PqRoom w)
+    (hg : Good XAll w0) (hnf : w0.fault = none) : PqRoom w0 :=
+  hroom.of_mono (nf_reach XAll.carry XAll.facts hg hnf hr).2.1
+
+/-! ### the invariant form: `NoFault` is preserved by `dispatch` given the combined invariant, which is itself preserved
+
+`Good XAll w` = `S3.AllInv` (waiters, timers, guards, inert non-running processes; Props/C04) ∧ `S1.FullInv` (holders,
+waiters, dead records, silent wake-ups, pool holders; Props/C05, C09) ∧ `StartOk` (a start event is addressed to a
+process that is not running, one per process) ∧ `RunBlocked` (a running process is suspended in a call between
+dispatches) ∧ `StaticOk` (< 2³¹ processes, flat observers, guard indices exist) ∧ `ProgOk` ∧ `TTH` (every armed timer is
+still scheduled, handle variables name events of their kind) ∧ `PL` (a process lists a pool iff it has a holder record)
+∧ `PQS` (priority queues well-formed). -/
+
+theorem loaded_worlds_good {w0 : World} (hl : Loaded w0) (hsz : w0.procs.size < 2 ^ 31) : Good XAll w0 ∧ NoFault w0 :=
+  hl.good hsz
+
+theorem good_preserved {w w' : World} (hg : Good XAll w) (hd : Sim.dispatch w = some w') : Good XAll w' :=
+  hg.dispatch XAll.carry hd
+
+theorem no_fault_preserved {w w' : World} (hg : Good XAll w) (hnf : NoFault w) (hd : Sim.dispatch w = some w')
+    (hroom : PqRoom w') : NoFault w' := nf_dispatch XAll.carry XAll.facts hg hnf hd hroom
+
+theorem good_reachable {w0 w : World} (hg : Good XAll w0) (hnf : NoFault w0) (hr : Reach w0 w) :
+    Good XAll w ∧ (PqRoom w → NoFault w) :=
+  ⟨(nf_reach XAll.carry XAll.facts hg hnf hr).1, (nf_reach XAll.carry XAll.facts hg hnf hr).2.2⟩
+
+/-! ### per fault family
+
+`Safe ex w` (Sim/S4Safe.lean): no fault so far, every waiting list / holder list a well-formed hashheap with process
+keys (outside `ex`), flat observers, existing guard indices.  It follows from `Good` (`safe_of_good`) and is carried
+through every primitive. -/
+
+theorem good_gives_safe {w : World} (hg : Good XAll w) (hnf : NoFault w) : Safe noKey w := safe_of_good hg hnf
+
+/-- "guard remove / dequeue / peek", "observer chain too deep": removing a waiter, signalling (with forwarding to the
+    observers), withdrawing, a condition signal and the epilogue of a wait never fault -/
+theorem no_abort_in_guards {ex : Nat → Prop} {w : World} (h : Safe ex w) (g : Nat) (p : Pid) (sig : Int) :
+    NoFault (guardRemove w g p).1 ∧ NoFault (signal w g) ∧ NoFault (guardWithdraw w g p) ∧ NoFault (condSignal w g).1 ∧
+    NoFault (guardWaitLeave w g p sig) ∧ NoFault (cancelAwaiteds w p) :=
+  ⟨(h.guardRemove_fst g p).nf, (h.signal g).nf, (h.guardWithdraw g p).nf, (h.condSignal_fst g).nf,
+   (h.guardWaitLeave g p sig).nf, (h.cancelAwaiteds p).nf⟩
+
+/-- "guard enqueue", "no such guard": the enqueue of the caller cannot fail — its key is fresh (it is queued nowhere),
+    it is a process key, and a list of distinct process keys has room below the growth limit -/
+theorem no_abort_entering_a_wait {w : World} {p : Pid} (h : Safe (isKey p) w) (g : Nat) (hg : g < w.guards.size)
+    (hp : p < w.procs.size) (d : Demand) : NoFault (guardWaitEnter w g p d) := guardWaitEnter_nf h g hg hp d
+
+/-- "pool drop / record / mug / rollback", "reset_holder: no record": the holder lists -/
+theorem no_abort_in_pools {ex : Nat → Prop} {w : World} (h : Safe ex w) (pl : Nat) (p : Pid) (hp : p < w.procs.size)
+    (a rem initially fuel : Nat) :
+    NoFault (poolUpdateRecord w pl p a) ∧ NoFault (poolDropHolder w pl p) ∧ NoFault (poolMug fuel w p pl rem).1 ∧
+    NoFault (poolRollback w p pl initially) ∧ NoFault (dropResources w p) ∧ NoFault (execCmd w p (.poolRelease pl a)).1 ∧
+    (0 < heldAmount w pl p → NoFault (setHeldAmount w pl p a)) :=
+  ⟨(h.poolUpdateRecord pl p a hp).nf, (h.poolDropHolder pl p).nf, (Safe.poolMug fuel h p hp pl rem).nf,
+   (h.poolRollback p pl initially).nf, (h.dropResources p).nf, SafeR.nf (SafeR.poolRelease h pl a),
+   fun hpos => (h.setHeldAmount pl p a (fun x hx => heldAmount_pos hx (h.hq pl x hx).1 hpos)).nf⟩
+
+/-- "grab of held resource": `grab` on a free resource is clean, and every command that grabs has checked (or made) it
+    free — see `command_never_faults` for the three call sites -/
+theorem no_grab_of_held {ex : Nat → Prop} {w : World} (h : Safe ex w) (r : Nat) (p : Pid)
+    (hfree : ∀ x, w.res[r]? = some x → x.holder = none) : NoFault (grab w r p) := (h.grab r p hfree).nf
+
+/-- "schedule in the past": an event scheduled at now + d with d ≥ 0 is accepted -/
+theorem no_schedule_in_past (w : World) (a s : Nat) (sig pri d : Int) (hd : 0 ≤ d) :
+    (sched w a s sig (w.now + d) pri).1.fault = w.fault :=
+  sched_ge_fault w a s sig (w.now + d) pri (by omega)
+
+/-- "priority_set: timer event not scheduled / guard / holder": with every armed timer scheduled and a holder record
+    for every pool the process lists (both invariants), `priority_set` never aborts -/
+theorem priority_set_never_aborts {ex : Nat → Prop} {w : World} (h : Safe ex w) (p q : Pid) (v : Int) (hpre : PrioPre w q) :
+    NoFault (execCmd w p (.prioSet q v)).1 := SafeR.nf (SafeR.prioSet h q v hpre)
+
+theorem priority_set_precondition {w : World} (hg : Good XAll w) (q : Pid) : PrioPre w q := XAll.facts.prio hg.x q
+
+/-- "pq dequeue / enqueue / cancel / reprio": below the growth limit the priority-queue commands never fault -/
+theorem no_abort_in_priority_queues {w : World} {p : Pid} (h : Safe (isKey p) w) (hp : p < w.procs.size) (hq : PQS w)
+    (hroom : PqRoom w) (k obj v : Nat) (pri : Int) (hk : k < w.pqs.size) :
+    NoFault (pqGetLoop w p k).1 ∧ NoFault (pqPutLoop w p k obj pri v).1 :=
+  ⟨SafeR.nf (SafeR.pqGetLoop h hp k hk (fun x hx => (hq.room hx (hroom k x hx)).1)),
+   SafeR.nf (SafeR.pqPutLoop h hp k obj pri v hk (fun x hx => let ⟨a, b, c⟩ := hq.room hx (hroom k x hx); ⟨a, b, c⟩))⟩
+
+/-- every command of a valid program, executed by a process that is queued nowhere, records no fault -/
+theorem command_never_faults {w : World} {p : Pid} (h : Safe (isKey p) w) (hp : p < w.procs.size) (c : Cmd)
+    (hs : CmdSafe w c) (hpre : CmdPre w c) : NoFault (execCmd w p c).1 := SafeR.nf (SafeR.execCmd h hp c hs hpre)
+
+/-- every continuation of a suspended call records no fault (`ResumePre`: after a SUCCESS wake-up the process is queued
+    nowhere, otherwise at most at the guard its frame waits on — both follow from the guard invariant of Props/C04) -/
+theorem resumed_call_never_faults {w : World} {p : Pid} (h : Safe noKey w) (hp : p < w.procs.size) (f : Frame) (sig : Int)
+    (hq : ResumePre w p f sig) (hpre : FramePre w f) : NoFault (resumeFrame w p f sig).1 :=
+  SafeR.nf (SafeR.resumeFrame h hp f sig hq hpre)
+
+/-- "resume of a process that is not running / not suspended": the unguarded resumptions of `dispatch` (timer,
+    interrupt, resume events) are addressed to a running process, and a running process is suspended in a call -/
+theorem no_stale_resume_abort {w : World} (hg : Good XAll w) {t : HTag} {ev' : EvQ} (hn : executeNext w.ev = some (t, ev'))
+    (ha : t.item.a = aTime ∨ t.item.a = aIntr ∨ t.item.a = aResume) :
+    (w.proc (t.item.b - 1)).status = .running ∧ ∃ f, (w.proc (t.item.b - 1)).blocked = some f := by
+  obtain ⟨_, htm, _, _⟩ := executeNext_facts hg.s3.g.ei hn
+  have hrun : (w.proc (t.item.b - 1)).status = .running := by
+    rcases ha with h | h | h
+    · exact (hg.s1.all.silent t htm (by rw [h]; rfl)).2
+    · exact (hg.s1.intr t htm h).2
+    · exact (hg.s1.all.silent t htm (by rw [h]; rfl)).2
+  exact ⟨hrun, hg.rb.no_resume_fault _ hrun⟩
+
+/-- … and in the guarded ones (process end, event done, grant, preemption, condition wake-up) a running target is
+    suspended in a call -/
+theorem running_is_suspended {w : World} (hg : Good XAll w) (p : Pid) (hr : (w.proc p).status = .running) :
+    ∃ f, (w.proc p).blocked = some f := hg.rb.no_resume_fault p hr
+
+/-- "start of a running process" -/
+theorem no_start_of_running {w : World} (hg : Good XAll w) {t : HTag} {ev' : EvQ} (hn : executeNext w.ev = some (t, ev'))
+    (ha : t.item.a = aStart) : ((S3.takeNext w t ev').proc (t.item.b - 1)).status ≠ .running :=
+  hg.start.inv.no_start_fault hn ha
+
+/-- "script fuel exhausted": the fuel `dispatch` / `resumeProc` give (`script.size + 2`) is more than the commands left;
+    any larger amount gives the same result, i.e. the bound is never what stops the script -/
+theorem fuel_suffices (w : World) (p : Pid) (k fuel : Nat) (h : (w.proc p).script.size - (w.proc p).pc < fuel) :
+    runScript fuel w p = runScript (fuel + k) w p := runScript_fuel_irrel w p k fuel h
+
+theorem fuel_given_at_start (w : World) (p : Pid) (f : Proc → Proc) :
+    ((w.modProc p f).proc p).script.size - ((w.modProc p f).proc p).pc < ((w.modProc p f).proc p).script.size + 2 :=
+  scriptLeft_start w p f
+
+/-- the run of a script records no fault, given the carried invariants at its start -/
+theorem script_never_faults (fuel : Nat) (w : World) (p : Pid) (hs : Safe (isKey p) w) (hx : XAll w) (hprog : ProgOk w)
+    (hf : (w.proc p).script.size - (w.proc p).pc < fuel) (hroom : PqRoom (runScript fuel w p)) :
+    NoFault (runScript fuel w p) := nf_runScript XAll.carry XAll.facts fuel w p hs hx hprog hf hroom
+
+
+/-! ### non-vacuity -/
+
+/-- a scenario with a resource (guard 0), a pool of 3 units (guard 1), an object queue of capacity 2 (guards 2, 3), a
+    condition (guard 4) observing the resource, and three autostarted processes that acquire / preempt / release, arm a
+    timer, use the queue, change a priority, wait on the condition, stop each other -/
+def demoWorld : World :=
+  autostart (autostart (autostart
+    (subscribe
+      (addProc (addProc (addProc (addCond (addOQ (addPool (addRes {}) 3) 2))
+        0 #[(.acquire 0, "acq 0"), (.hold 1, "hold 1"), (.poolAcquire 0 2, "pacq 0 2"), (.oqPut 0 7, "oput 0 7"),
+            (.release 0, "rel 0"), (.poolRelease 0 2, "prel 0 2")])
+        1 #[(.timerAdd 0 2 (-5), "tadd 0 2 -5"), (.acquire 0, "acq 0"), (.oqGet 0, "oget 0"), (.prioSet 0 3, "prio 0 3"),
+            (.condWait 0 1 0 0, "cwait 0 1 0 0")])
+        2 #[(.poolPreempt 0 3, "ppre 0 3"), (.hold 2, "hold 2"), (.stop 1 4, "stop 1 4"), (.condSignal 0, "csig 0")])
+      0 4)
+    0) 1) 2
+
+theorem demoWorld_loaded : Loaded demoWorld := by
+  unfold demoWorld
+  refine .start 2 (.start 1 (.start 0 (.sub 0 4 (.proc 2 _ (.proc 1 _ (.proc 0 _
+    (.cond (.oq 2 (.pool 3 (.res .empty)))) ?_) ?_) ?_) ?_ ?_) ?_ ?_) ?_ ?_) ?_ ?_
+  · intro i c t h
+    rcases i with _ | _ | _ | _ | _ | _ | i <;> cases h <;>
+      exact ⟨trivial, by first | trivial | (show (0:Int) ≤ _; decide), trivial, fun r hr => by cases hr <;> decide⟩
+  · intro i c t h
+    rcases i with _ | _ | _ | _ | _ | i <;> cases h
+    · exact ⟨by show encSig (-5) ≠ 0; decide, by show (0:Int) ≤ 2; decide, by show 0 < 4; decide, fun r hr => by cases hr⟩
+    · exact ⟨trivial, trivial, trivial, fun r hr => by cases hr <;> decide⟩
+    · exact ⟨trivial, trivial, trivial, fun r hr => by cases hr⟩
+    · exact ⟨trivial, trivial, trivial, fun r hr => by cases hr⟩
+    · exact ⟨trivial, trivial, trivial, fun r hr => by cases hr⟩
+  · intro i c t h
+    rcases i with _ | _ | _ | _ | i <;> cases h
+    · exact ⟨trivial, trivial, trivial, fun r hr => by cases hr⟩
+    · exact ⟨trivial, by show (0:Int) ≤ 2; decide, trivial, fun r hr => by cases hr⟩
+    · exact ⟨trivial, trivial, trivial, fun r hr => by cases hr⟩
+    · exact ⟨trivial, trivial, trivial, fun r hr => by cases hr⟩
+  · exact ⟨_, rfl, rfl⟩
+  · exact ⟨_, rfl, rfl⟩
+  · decide
+  · intro e he; cases he
+  · decide
+  · intro e he
+    simp only [S3.autostart, S3.sched_now, pushEv_pending, List.mem_cons] at he
+    rcases he with rfl | he
+    · decide
+    · cases he
+  · decide
+  · intro e he
+    simp only [S3.autostart, S3.sched_now, pushEv_pending, List.mem_cons] at he
+    rcases he with rfl | rfl | he
+    · decide
+    · decide
+    · cases he
+
+/-- the hypotheses of `model_never_faults` are satisfiable by a world with several processes, a resource, a pool, a queue
+    and a subscribed condition — and every state of its run is fault-free -/
+example : Loaded demoWorld ∧ demoWorld.procs.size = 3 ∧ demoWorld.res.size = 1 ∧ demoWorld.pools.size = 1 ∧
+    demoWorld.oqs.size = 1 ∧ demoWorld.conds.size = 1 ∧ demoWorld.ev.pending.length = 3 ∧
+    ∀ w, Reach demoWorld w → NoFault w :=
+  ⟨demoWorld_loaded, rfl, rfl, rfl, rfl, rfl, rfl,
+   fun w hr => model_never_faults_without_pq demoWorld_loaded (by decide) rfl hr⟩
+
+/-- with a priority queue: the bound `PqRoom` holds initially (no handle issued yet), so the hypothesis of
+    `model_never_faults` is satisfiable there too -/
+example : ∃ w0 : World, Loaded w0 ∧ w0.pqs.size = 1 ∧ PqRoom w0 ∧
+    ∀ w, Reach w0 w → PqRoom w → NoFault w := by
+  refine ⟨autostart (addProc (addPQ {} 4) 0 #[(.pqPut 0 9 1 4, "kput 0 9 1 4"), (.pqGet 0, "kget 0")]) 0, ?_, rfl, ?_, ?_⟩
+  · refine .start 0 (.proc 0 _ (.pq 4 .empty) ?_) (by decide) (fun e he => by cases he)
+    intro i c t h
+    rcases i with _ | _ | i <;> cases h
+    · exact ⟨trivial, trivial, by show 4 ≤ 4 ∧ 4 < 8; decide, fun r hr => by cases hr⟩
+    · exact ⟨trivial, trivial, trivial, fun r hr => by cases hr⟩
+  · intro k x hx
+    rcases k with _ | k
+    · cases hx; decide
+    · cases hx
+  · intro w hr hroom
+    refine model_never_faults (w0 := autostart (addProc (addPQ {} 4) 0 #[(.pqPut 0 9 1 4, "kput 0 9 1 4"), (.pqGet 0, "kget 0")]) 0)
+      ?_ (by decide) hr hroom
+    refine .start 0 (.proc 0 _ (.pq 4 .empty) ?_) (by decide) (fun e he => by cases he)
+    intro i c t h
+    rcases i with _ | _ | i <;> cases h
+    · exact ⟨trivial, trivial, by show 4 ≤ 4 ∧ 4 < 8; decide, fun r hr => by cases hr⟩
+    · exact ⟨trivial, trivial, trivial, fun r hr => by cases hr⟩
+
+/-- the validity hypotheses are needed: a program that passes the handle of one of its timers to `cmb_event_cancel`
+    (`cancelUser` on a variable written by `timerAdd` — excluded by `VarsOk`) and then changes its priority runs into
+    the release assert of `cmb_event_reprioritize` ("priority_set: timer event not scheduled"); the library does the same
+    (scenario: proc 0 1 3 / tadd 8 5 -5 / ucancel 8 / prio 0 3) -/
+example : (Sim.runAll 3 (autostart (addProc {} 0 #[(.timerAdd 8 5 (-5), "tadd 8 5 -5"), (.cancelUser 8, "ucancel 8"),
+    (.prioSet 0 3, "prio 0 3")]) 0)).fault.isSome = true := by decide +kernel
+
+end ProcessLayer
 
 end CimbaModel.Props.C10
